@@ -175,7 +175,7 @@ def start_task():
         Obl("C09/T1/StartTask", P.t1_processed_with_effects(), when="any"),
         Obl("C01/T6/StartTask", P.t6_single_commit(), when="any"),
         Obl("C01/T7/StartTask", P.t7_no_split, when="any"),
-        Obl("C05/T5/StartTask", _start_task_t2, when="any"),
+        Obl("C05/T5/StartTask", _start_task_t2, when="any", scenario="d3_disabled_skippable_task.py"),
         Obl("C10/token/StartTask", _start_task_t2, when="any"),
         Obl("C05/T2b/StartTask", P.no_push_after_commit, when="any"),
         Obl("C06/T3/StartTask", P.t3_legal_write(), when="any"),
@@ -391,7 +391,9 @@ def _helper_outcome(kinds, allow_none=False):
             # nothing done at all: allowed only when the reloaded stage no longer contains the task (nothing to continue)
             st2 = loaded_stage(ctx)
             found = st2 is not None and bool(I.st.index_terms.get(I.getattr(st2, "tasks").lid))
-            return [("nothing-only-when-task-gone", z3.BoolVal(not found))]
+            if not found:
+                return [("nothing-only-when-task-gone", TRUE)]
+            return [("nothing-only-when-task-gone-or-stale", z3.Not(task_guard_on(ctx, st2, "RUNNING")))]
         goals = [("one-commit", z3.BoolVal(len(txns) == 1))]
         if len(txns) != 1:
             return goals
@@ -406,11 +408,41 @@ def _helper_outcome(kinds, allow_none=False):
         if not cont:
             stores_ = [e for e in t.effects if e.kind == "store_stage"]
             ok = stores_[0].data["snap"]["status"].t == status(I, "SUSPENDED") if (stores_ and allow_none) else FALSE
-            goals.append(("no-continuation-only-when-suspended", ok))
+            if not stores_ and not ps:
+                # mark-only: the result is discarded because the reloaded task is no longer RUNNING
+                g = task_guard_on(ctx, loaded_stage(ctx), "RUNNING")
+                ok = z3.Not(g) if g is not None else FALSE
+            goals.append(("no-continuation-only-when-suspended-or-stale", ok))
         else:
             goals.append(("one-continuation", z3.BoolVal(len(cont) == 1)))
         return goals
     return check
+
+
+def task_guard_on(ctx, stage, want):
+    I = ctx.I
+    if stage is None:
+        return None
+    ld = T.loaded_info(I, stage)
+    tasks = I.getattr(stage, "tasks")
+    ids = I._elem_array(tasks.lid, "id", z3.IntSort())
+    tid = I.getattr(ctx.extra["message"], "task_id").t
+    n = I.ops.list_len(tasks)
+    disj = [z3.And(p[-1] >= 0, p[-1] < n, z3.Select(ids, p[-1]) == tid, z3.Select(ld["task_status"], p[-1]) == status(I, want))
+            for p in I.st.index_terms.get(tasks.lid, [])]
+    return z3.Or(*disj) if disj else FALSE
+
+
+def _stage_task_inv(ctx, e):
+    """Data invariant of a loaded stage row (is_valid precondition, listed as an assumption): a stage that holds a
+    RUNNING task is itself RUNNING."""
+    I = ctx.I
+    ld = e.data.get("loaded") or {}
+    if "task_status" not in ld:
+        return TRUE
+    i = z3.Int("inv_task_index")
+    return z3.ForAll([i], z3.Implies(z3.And(i >= 0, i < I.ops.base_len(ld["tasks_lid"], ()), z3.Select(ld["task_status"], i) == status(I, "RUNNING")),
+                                     ld["status"].t == status(I, "RUNNING")))
 
 
 def _common_helper_obls(tag, kinds, allow_none=False, t1_exempt=None):
@@ -424,7 +456,8 @@ def _common_helper_obls(tag, kinds, allow_none=False, t1_exempt=None):
         Obl(f"C01/T6/{tag}", P.t6_single_commit(), when="any"),
         Obl(f"C01/T7/{tag}", P.t7_no_split, when="any"),
         Obl(f"C05/T2b/{tag}", P.no_push_after_commit, when="any"),
-        Obl(f"C06/T3/{tag}", P.t3_legal_write(), when="any"),
+        Obl(f"C06/T3/{tag}", P.t3_legal_write(pre=_stage_task_inv), when="any",
+            scenario="d4_cancel_then_suspend.py" if tag == "process_result" else None),
         Obl(f"C07/retry-reloads/{tag}", _stores_use_fresh_loads, when="any"),
     ]
 
